@@ -48,7 +48,7 @@ namespace bloc
 {
 
 #ifdef BLOC_VERIF
-VerifHooks verif_hooks = { nullptr, nullptr };
+VerifHooks verif_hooks = { nullptr, nullptr, nullptr };
 #endif
 
 Context::Context()
